@@ -328,6 +328,8 @@ class Ctx:
         self.known_hits = {}      # finding id -> count
         self.broken = []          # theorem / correspondence names that no longer check
         self.findings = load_findings(prop)
+        for f in glob.glob(os.path.join(VERIF, 'replays', f'{prop}-*.json')):
+            os.remove(f)
         self.extra = {}
         self.dist = {}
 
@@ -462,12 +464,13 @@ class Ctx:
 
 
 def diff_suite(ctx, suite, cases, impl_fn, exe, model_job, norm_impl, judge,
-               key=None, describe=None, hashseed='0'):
+               key=None, describe=None, hashseed='0', impl_case=None):
     """Run impl and model on all cases and hand every disagreement to `judge`.
     model_job(case) -> sx job; norm_impl(case, impl_result) -> structure in the
     model's output format; judge(case, impl_norm, model_out, raw) ->
     None | (signature, found_input) for a disagreement."""
-    raws = run_impl(impl_fn, cases, hashseed=hashseed)
+    raws = run_impl(impl_fn, [impl_case(c) for c in cases] if impl_case else cases,
+                    hashseed=hashseed)
     mouts = run_model(exe, [model_job(c) for c in cases])
     nagree = 0
     for c, raw, mo in zip(cases, raws, mouts):
